@@ -213,6 +213,12 @@ func init() {
 				origs = append(origs, ctyVariant(ty, 1), ctyVariant(ty, 2))
 				c.Label("empty-struct-variants")
 			}
+			if hasPlainObject(ty) {
+				// the same type with "no optional attributes" said through the
+				// constructor that takes a list of them, given an empty one
+				origs = append(origs, ctyVariant(ty, 3), ctyVariant(ty, 4))
+				c.Label("empty-optional-list-variants")
+			}
 			for vi, orig := range origs {
 				if vi > 0 && (!orig.Equals(origs[0]) || !origs[0].Equals(orig)) {
 					return facet.Failf("equals-variant", "%s built with nil / empty element containers is not Equal to the same type built otherwise", ty)
@@ -578,7 +584,40 @@ func ctyVariant(t spec.T, variant int) cty.Type {
 		if len(opt) > 0 {
 			return cty.ObjectWithOptionalAttrs(as, opt)
 		}
+		switch variant {
+		case 3:
+			// no optional attributes, said with an empty (non-nil) list
+			return cty.ObjectWithOptionalAttrs(as, []string{})
+		case 4:
+			return cty.ObjectWithOptionalAttrs(as, make([]string, 0, 4))
+		}
 		return cty.Object(as)
 	}
 	return t.Cty()
+}
+
+// hasPlainObject: an object type with attributes and no optional ones occurs in t.
+func hasPlainObject(t spec.T) bool {
+	switch t.K {
+	case spec.KList, spec.KSet, spec.KMap:
+		return hasPlainObject(*t.E)
+	case spec.KTuple:
+		for _, e := range t.Elems {
+			if hasPlainObject(e) {
+				return true
+			}
+		}
+	case spec.KObject:
+		opt := false
+		for _, a := range t.Attrs {
+			if a.Opt {
+				opt = true
+			}
+			if hasPlainObject(a.T) {
+				return true
+			}
+		}
+		return len(t.Attrs) > 0 && !opt
+	}
+	return false
 }
